@@ -238,6 +238,12 @@ func (m *vfC04Machine) classify(p *vfC04Pool) {
 		nb = "n=3-4"
 	}
 	m.vf.Class("sel-policy="+p.rawPolicy, "sel-"+nb)
+	if p.cbPolicy != "" {
+		m.vf.Class("sel-behind-circuitbreaker")
+		if p.policy == LoadBalancePolicyRoundRobin && n >= 2 && n%2 == 0 {
+			m.vf.Class("sel-behind-circuitbreaker-rr-even-n")
+		}
+	}
 	if len(p.cands) > 1 {
 		m.vf.Class("ambiguous-empty-selector")
 	}
@@ -569,7 +575,7 @@ func vfC04RunMachine(t *testing.T, raceSafe bool) {
 			m.pools[1].sp = px.candidatePools[0]
 		}
 		for _, p := range m.pools {
-			vf.Class("pool-policy="+p.rawPolicy, fmt.Sprintf("pool-discovery=%v", p.discovery))
+			vf.Class("pool-policy="+p.rawPolicy, fmt.Sprintf("pool-discovery=%v", p.discovery), fmt.Sprintf("pool-circuitbreaker=%v", p.cbPolicy != ""))
 		}
 		rt.Repeat(map[string]func(*rapid.T){
 			"select":  m.actSelect,
